@@ -21,8 +21,13 @@ Cases == JsonDeserialize(IOEnv.TRACE_FILE)
 VARIABLES tid, side, pos, U, Ua
 vars == <<tid, side, pos, U, Ua>>
 Case == Cases[tid]
+\* the unitaries are evaluated on the basis columns listed in cs (0-based; <<>> = all columns).  Restricting to
+\* the columns whose work wires are |0> expresses "work wires start and end in |0>": the rule must agree with
+\* U (x) I on exactly these inputs.
+U0(c) == IF Len(c.cs) = 0 THEN Ident(2^c.n)
+         ELSE [k |-> 0, e |-> TLCEval([i \in 1..2^c.n |-> TLCEval([j \in 1..Len(c.cs) |-> IF c.cs[j] = i-1 THEN One ELSE Zero])])]
 Init == /\ tid \in 1..NCASES /\ side = 0 /\ pos = 1
-        /\ U = Ident(2^Cases[tid].n) /\ Ua = <<>>
+        /\ U = U0(Cases[tid]) /\ Ua = <<>>
 Seq_(s) == IF s = 0 THEN Case.a ELSE Case.bs[s].b
 \* permutation matrix: basis state with bit i (wire i) moved to wire perm[i]
 PermM(perm, n) == LET D == 2^n
@@ -40,10 +45,10 @@ Step == /\ side <= Len(Case.bs) /\ pos <= Len(Seq_(side))
 \* end of the input circuit: remember U_a
 EndA == /\ side = 0 /\ pos > Len(Case.a)
         /\ IF Len(Case.bs) > 0 /\ Case.bs[1].rel = "emit" THEN PrintT(ToJson([tid |-> tid, u |-> U])) ELSE TRUE
-        /\ side' = 1 /\ pos' = 1 /\ Ua' = U /\ U' = Ident(2^Case.n) /\ UNCHANGED tid
+        /\ side' = 1 /\ pos' = 1 /\ Ua' = U /\ U' = U0(Case) /\ UNCHANGED tid
 \* end of an output circuit: the relational enabling condition, reported as a verdict
 EndB == /\ side >= 1 /\ side <= Len(Case.bs) /\ pos > Len(Case.bs[side].b)
         /\ PrintT(<<"V", tid, side, Verdict(Ua, U, Case.bs[side])>>)
-        /\ side' = side + 1 /\ pos' = 1 /\ U' = Ident(2^Case.n) /\ UNCHANGED <<tid, Ua>>
+        /\ side' = side + 1 /\ pos' = 1 /\ U' = U0(Case) /\ UNCHANGED <<tid, Ua>>
 Next == Step \/ EndA \/ EndB
 =============================================================================
